@@ -42,6 +42,35 @@ theorem responder_pinned_counterexample :
 example : runChunks (submit ("PASS".toList.map Cls.lit)) 0 [] ["PASS: PA".toList, "SS".toList] = 2 := by decide
 example : 0 < ("PASS".toList.map Cls.lit).length := by decide
 
+/-! ### one occurrence spanning many reads -/
+
+/-- the headline instantiated where it is least obvious: EVERY read is shorter than a single
+    occurrence of the pattern (so every occurrence is delivered in several reads, and the text that
+    starts it was already scanned - without a hit - by earlier submits).  The hypothesis is not
+    needed for the proof; the statement is the explicit instance. -/
+theorem responder_span_exceeds_reads (p : Pat) (hp : 0 < p.length) (chunks : List (List Char))
+    (_hshort : ∀ c ∈ chunks, c.length < p.length) :
+    runChunks (submit p) 0 [] chunks = (findall p chunks.flatten).length :=
+  responder_chunk_invariant p hp chunks
+
+/-- concrete long-span witness: pattern `a..........b` (width 12), every read has 1 or 2 characters,
+    two occurrences, each delivered in nine reads; answered exactly twice, as in the whole text -/
+example :
+    let p : Pat := Cls.lit 'a' :: (List.replicate 10 Cls.any ++ [Cls.lit 'b'])
+    let chunks : List (List Char) :=
+      ["x", "a0", "1", "23", "4", "56", "7", "89", "b", ".a", "01", "2", "34", "5", "67", "8", "9b", "!"].map String.toList
+    (∀ c ∈ chunks, c.length < p.length) ∧
+      runChunksTrace (submit p) 0 [] chunks = [0, 0, 0, 0, 0, 0, 0, 0, 1, 0, 0, 0, 0, 0, 0, 0, 1, 0] ∧
+      runChunks (submit p) 0 [] chunks = 2 ∧ (findall p chunks.flatten).length = 2 := by decide
+
+/-- a responder that forgets text it scanned without a hit (here: rescans only the last 4 characters
+    seen before the new read) is NOT chunk independent on that witness: this is what the theorem
+    excludes.  `submit` from index `seen.length - 4` instead of from the stored index. -/
+example :
+    let p : Pat := Cls.lit 'a' :: (List.replicate 10 Cls.any ++ [Cls.lit 'b'])
+    (submit p ("xa0123456789".length - 4) "xa0123456789b".toList).2 = 0 ∧
+      (submit p 0 "xa0123456789b".toList).2 = 1 := by decide
+
 
 /-! ### FailingResponder -/
 
@@ -67,5 +96,55 @@ theorem failing_raises_after_response (p sent : Pat) (hs : 0 < sent.length) (pre
 example : frun ("pw:".toList.map Cls.lit) ("bad".toList.map Cls.lit) {} [] ["pw".toList, ": b".toList, "ad".toList, "x".toList]
     = [some 0, some 1, none] := by decide
 example : none ∉ frun ("pw:".toList.map Cls.lit) ("bad".toList.map Cls.lit) {} [] ["pw".toList, ": ba".toList, "_d".toList] := by decide
+
+/-! ### several commands on one Context: fresh responders, configured watchers untouched -/
+
+/-- a FRESH responder's answers are a function of the text: the responses of one command, per
+    watcher, are the occurrences in that command's whole output -/
+theorem fresh_responses_depend_on_text_only (ws : List Pat) (hws : ∀ p ∈ ws, 0 < p.length)
+    (chunks : List (List Char)) :
+    cmdResponses ws chunks = ws.map (fun p => (findall p chunks.flatten).length) := by
+  unfold cmdResponses
+  apply List.map_congr_left
+  intro p hp
+  exact responder_chunk_invariant p (hws p hp) chunks
+
+/-- in ANY history of `run`/`sudo` commands on one Context every command is answered exactly as its
+    own watchers (configured ones, plus the one password responder for sudo) demand on its own
+    output: neither the chunking nor the earlier commands matter -/
+theorem history_determined_by_own_text (conf : List Pat) (cmds : List Cmd)
+    (hw : ∀ c ∈ cmds, ∀ p ∈ c.watchers conf, 0 < p.length) :
+    history conf cmds = cmds.map (cmdReference conf) := by
+  induction cmds with
+  | nil => rfl
+  | cons c cs ih =>
+    have ih' := ih (fun c' hc' => hw c' (List.mem_cons_of_mem _ hc'))
+    show cmdResponses (c.watchers conf) c.chunks :: history conf cs = _
+    rw [ih', fresh_responses_depend_on_text_only _ (hw c (by simp))]
+    rfl
+
+/-- the answers to a command do not depend on what ran before (or after) it on the same Context -/
+theorem history_earlier_commands_irrelevant (conf : List Pat) (pre : List Cmd) (c : Cmd) (post : List Cmd) :
+    (history conf (pre ++ c :: post))[pre.length]? = some (cmdResponses (c.watchers conf) c.chunks) := by
+  induction pre with
+  | nil => rfl
+  | cons d ds ih =>
+    show (cmdResponses (d.watchers conf) d.chunks :: history conf (ds ++ c :: post))[ds.length + 1]? = _
+    simpa using ih
+
+/-- the configured watchers are the same list after any history -/
+theorem history_leaves_configuration (conf : List Pat) (cmds : List Cmd) :
+    cmds.foldl Cmd.confAfter conf = conf := by
+  induction cmds with
+  | nil => rfl
+  | cons c cs ih => simpa [List.foldl, Cmd.confAfter] using ih
+
+/-- a sudo that leaves its responder in the configured list breaks exactly this: the second sudo
+    answers its single prompt twice, a later plain run is answered although it has no watcher -/
+theorem history_leaky_counterexample :
+    let pw : Pat := "pw:".toList.map Cls.lit
+    let cmds : List Cmd := [⟨some pw, none, ["pw:".toList]⟩, ⟨some pw, none, ["p".toList, "w:".toList]⟩, ⟨none, none, ["say pw: x".toList]⟩]
+    historyLeaky [] cmds = [[1], [1, 1], [1, 1]] ∧ history [] cmds = [[1], [1], []] ∧
+      cmds.map (cmdReference []) = [[1], [1], []] := by decide
 
 end Inv
